@@ -218,7 +218,7 @@ def evaluate(cfg, want_detail=False, extra=None, pid='C01', cls=None):
                 B = (so[:, None] * B) / sw[None, :]
             blocks[(r['name'], d['name'])] = B
     tol = 1e-9
-    if cfg.get('partials') == 'fd_central':
+    if cfg.get('partials') == 'fd_central' or cfg.get('approx_sub') == 'fd':
         tol = 2e-6
     got = {}
     try:
